@@ -983,8 +983,10 @@ class new_var(Method):
         return pprint.N("Variable " + data['name'] + " :: ") + printer.print_type(T)
 
     def apply(self, state: ProofState, id, data, prevs):
-        state.add_line_before(id, 1)
         T = parser.parse_type(data['type'])
+        vars = state.get_vars(id)
+        assert data['name'] not in vars or vars[data['name']] == T, "new_var: duplicate name %s" % data['name']
+        state.add_line_before(id, 1)
         state.set_line(id, 'variable', args=(data['name'], T), prevs=[])
 
 
